@@ -78,7 +78,7 @@ def probe_shared_client(ctx, seconds=2):
     return viol, {"one_client_shared_by_threads": "compiles on this tree", "calls": j["calls"], "publications": j["publications"]}
 
 
-MT_SCENARIOS = {"C03": ["handover"], "C02": ["threads"], "C14": ["threads"], "C16": ["threads"], "C18": ["fork"], "C17": ["nullerr", "handover"]}
+MT_SCENARIOS = {"C03": ["handover"], "C02": ["threads"], "C14": ["threads"], "C16": ["threads"], "C18": ["fork"], "C17": ["nullerr", "handover", "threads"]}
 
 
 def run_mt(ctx, prop, seconds=2.0):
@@ -100,7 +100,8 @@ def run_mt(ctx, prop, seconds=2.0):
             for ln in p.stdout.splitlines():
                 if ln.startswith("VIOLATION-MT "):
                     _, pr, sig, text = ln.split(" ", 3)
-                    if pr == prop:
+                    # the error a C call reports is part of the C interface (C17) as much as of the call's behaviour (C14)
+                    if pr == prop or (prop == "C17" and pr == "C14" and sig == "wrong-error-kind"):
                         viol.append({"sig": "c-client-" + sig, "detail": "[multi-threaded C client, scenario %s] %s" % (sc, text), "replay": ""})
                 elif ln.startswith("MT "):
                     stats[sc] = ln[3:]
